@@ -182,6 +182,36 @@ class Scheduler:
             raise Abort()
         return True
 
+    def yield_to_other(self, me: Slot) -> None:
+        """The holder cannot go on right now (a cooperative lock is taken): someone else must run."""
+        if self.abort:
+            raise Abort()
+        self.points += 1
+        me.local += 1
+        if self.points > MAX_POINTS:
+            self.abort = True
+            raise HarnessError('scheduling point budget exceeded')
+        others = [s for s in self.runnable() if s is not me]
+        if not others:
+            self.abort = True
+            raise HarnessError('a lock is held and nobody else can run (deadlock in the code under test or the harness)')
+        if self.replay is not None and self.pos < len(self.replay):
+            want = self.replay[self.pos]
+            self.pos += 1
+            nxt = next((s for s in others if s.aid == want), others[0])
+        elif self.replay is not None or self.sw_replay is not None:
+            nxt = others[0]
+        else:
+            nxt = self.rng.choice(others)
+        self.record.append(nxt.aid)
+        self.switch_log.append([me.aid, me.local, nxt.aid])
+        self.switches += 1
+        self.current = nxt
+        nxt.sem.release()
+        me.sem.acquire()
+        if self.abort:
+            raise Abort()
+
     def wait_turn(self, me: Slot) -> None:
         """First thing an actor thread does."""
         me.sem.acquire()
